@@ -218,13 +218,13 @@ func reuseWrites(rng interface{ Intn(int) int }, n int) [][]int {
 		return []int{1, 2, n / 2, n - 1, n, n + 1, n + n/4, 2 * n, 2*n + 1, 3 * n}[rng.Intn(10)]
 	}
 	ws := [][]int{
-		{n, n, n},                 // at the threshold, buffer empty every time
+		{n, n, n},                   // at the threshold, buffer empty every time
 		{n + n/6, n + n/6, n + n/6}, // above, buffer empty every time (three "layers")
-		{3, n, n, n - 3},          // at the threshold, buffer never empty
-		{n - 1, n - 1, n - 1, 3},  // below; the second Write straddles
-		{5, 5, 5, 5, 5, 5, 5},     // far below: everything sits in the buffer until Close
+		{3, n, n, n - 3},            // at the threshold, buffer never empty
+		{n - 1, n - 1, n - 1, 3},    // below; the second Write straddles
+		{5, 5, 5, 5, 5, 5, 5},       // far below: everything sits in the buffer until Close
 		{1, 2*n + 1, 1, 2*n + 1, n}, // large batches on a non-empty buffer
-		{n, 0, n + 1, 0, 1, n, 2}, // empty Writes in between, flush then remainder
+		{n, 0, n + 1, 0, 1, n, 2},   // empty Writes in between, flush then remainder
 		{2 * n, n / 2, 2 * n, n / 2, 0},
 	}
 	for i := 0; i < 2; i++ {
